@@ -132,15 +132,14 @@ class World:
             if ambient is not None:
                 C.set_global_colors_config(ambient)
         try:
-            if kind == 0:
-                r = self.table.ch_text(**kw)
-                return str(r), "\n".join(str(l) for l in self.table.ch_text(**kw))
-            if kind == 1:
-                r = self.pp(DATA, **kw)
-                return str(r), "\n".join(str(l) for l in self.pp(DATA, **kw))
-            if kind == 2:
-                r = self.ppj(DATA, **kw)
-                return str(r), "\n".join(str(l) for l in self.ppj(DATA, **kw))
+            if kind in (0, 1, 2):
+                mk = [lambda: self.table.ch_text(**kw), lambda: self.pp(DATA, **kw), lambda: self.ppj(DATA, **kw)][kind]
+                whole = str(mk())
+                by_line = "\n".join(str(l) for l in mk())
+                collected = list(mk())              # all lines taken first, read afterwards
+                if "\n".join(str(l) for l in collected) != by_line:
+                    raise Violation(f"lines-collected :: object kind {kind}: the lines collected into a list first and read afterwards differ from the lines read one by one")
+                return whole, by_line
             if kind == 3:
                 out = "\n".join(str(self.recfmt(rec, **kw)) + " | " + str(self.recfmt(rec, **kw).ch_text()) for rec in RECORDS)
                 return out, out
